@@ -87,7 +87,7 @@ Definition f_eq (f1 f2 : form) : form := FAnd [FOr [FNot f1; f2]; FOr [f1; FNot 
 Definition f_xor (f1 f2 : form) : form := FAnd [FOr [FNot f1; FNot f2]; FOr [f1; f2]].
 
 (* ------------------------------------------------------------------ *)
-(* bf.go:311-378  Unique, uniqueSmall, uniqueRec                        *)
+(* bf.go:311-382  Unique, uniqueSmall, uniqueRec                        *)
 
 (* "%d" of a non-negative int *)
 Definition dec (n : N) : string := NilEmpty.string_of_uint (N.to_uint n).
@@ -103,7 +103,7 @@ Fixpoint pairs_neg (l : list var) : list form :=
 Definition unique_small (vars : list var) : form :=
   FAnd (FOr (map FVar vars) :: pairs_neg vars).
 
-(* bf.go:343-344,356  with k = floor(sqrt n) (exact integer square root):
+(* bf.go:343-344,359  with k = floor(sqrt n) (exact integer square root):
      int(sqrt(n) + 0.5) = k  iff sqrt n < k + 1/2 iff n <= k*k + k ;
      int(ceil(sqrt n))  = k  iff n = k*k.
    Checked against the float64 code for 5 <= n <= 400 (Properties/C12.v,
@@ -126,17 +126,17 @@ Fixpoint select {A} (p : nat -> bool) (i : nat) (l : list A) : list A :=
 Definition grid_name (kind : string) (i : nat) (full : string) : string :=
   (kind ++ dec (N.of_nat i) ++ "-" ++ full)%string.
 
-(* bf.go:352-354 / 359-362 *)
+(* bf.go:355-358 / 361-365 *)
 Definition grid_vars (kind : string) (count : nat) (full : string) : list var :=
   map (fun i => dummy_var (grid_name kind i full)) (seq 0 count).
 
-(* bf.go:364-367  linesF / colsF *)
+(* bf.go:367-370  linesF / colsF *)
 Definition lines_of (vars : list var) (nbl nbc : nat) : list (list var) :=
   map (fun i => select (fun p => (p / nbc =? i)%nat) 0 vars) (seq 0 nbl).
 Definition cols_of (vars : list var) (nbc : nat) : list (list var) :=
   map (fun j => select (fun p => (p mod nbc =? j)%nat) 0 vars) (seq 0 nbc).
 
-(* bf.go:368-373  Eq(lines[i], Or(linesF[i]...)) *)
+(* bf.go:371-376  Eq(lines[i], Or(linesF[i]...)) *)
 Fixpoint grid_defs (ds : list var) (members : list (list var)) : list form :=
   match ds, members with
   | d :: ds', l :: members' => f_eq (FVar d) (FOr (map FVar l)) :: grid_defs ds' members'
@@ -186,11 +186,15 @@ Definition quote (s : string) : string := String ch_dq (qbody s ++ String ch_dq 
 Definition string_of_bytes (l : list nat) : string :=
   fold_right (fun n s => String (ascii_of_nat n) s) EmptyString l.
 
-(* bf.go:347-351  fullName *)
-Definition full_name (vars : list var) : string :=
-  String.concat "-" (map (fun v => quote (vname v)) vars).
+(* bf.go:347-354  fullName: the quoted names, a nested group of dummies being
+   marked with a "d", joined with "-" *)
+Definition qname (v : var) : string :=
+  if vdummy v then String "d" (quote (vname v)) else quote (vname v).
 
-(* bf.go:338-378.  The recursion is on lists that get strictly shorter
+Definition full_name (vars : list var) : string :=
+  String.concat "-" (map qname vars).
+
+(* bf.go:338-382.  The recursion is on lists that get strictly shorter
    (nbLines, nbCols < nbVars when nbVars > 4): fuel = number of variables is
    enough (Proofs/Bf.v); FFalse is the out-of-fuel value. *)
 Fixpoint unique_rec (fuel : nat) (vars : list var) : form :=
@@ -383,7 +387,7 @@ Definition is_nnf (f : form) : bool :=
   match f with FTrue | FFalse => true | _ => nnf_sub KTop f end.
 
 (* ------------------------------------------------------------------ *)
-(* bf.go:380-406  vars, litValue, dummy                                 *)
+(* bf.go:384-410  vars, litValue, dummy                                 *)
 
 Definition table := list (var * Z).
 
@@ -404,7 +408,7 @@ Record vars := Vars { v_all : table; v_pb : table }.
 
 Definition tbl_len (t : table) : Z := Z.of_nat (List.length t).
 
-(* bf.go:388-399 *)
+(* bf.go:391-402 *)
 Definition lit_value (vs : vars) (v : var) (signed : bool) : Z * vars :=
   match tbl_get (v_all vs) v with
   | Some val => ((if signed then - val else val), vs)
@@ -420,14 +424,14 @@ Definition tseitin_var (val : Z) : var :=
 (* v is named like a variable of vars.dummy(): dummy flag and "dummy-..." *)
 Definition tseitin_name (v : var) : bool := vdummy v && prefix "dummy-" (vname v).
 
-(* bf.go:402-406.  The key is never already in the map (Proofs/Bf.v,
+(* bf.go:405-409.  The key is never already in the map (Proofs/Bf.v,
    [new_dummy_spec]), so the assignment is an insertion. *)
 Definition new_dummy (vs : vars) : Z * vars :=
   let val := tbl_len (v_all vs) + 1 in
   (val, Vars (tbl_set (v_all vs) (tseitin_var val) val) (v_pb vs)).
 
 (* ------------------------------------------------------------------ *)
-(* bf.go:444-484  cnfRec                                                *)
+(* bf.go:449-489  cnfRec                                                *)
 
 (* "for _, sub := range l { res = append(res, step(sub, vars)...) }" *)
 Definition thread {A} (step : A -> vars -> list clause * vars)
@@ -441,12 +445,12 @@ Definition thread {A} (step : A -> vars -> list clause * vars)
       (c1 ++ c2, vs2)
     end.
 
-(* bf.go:466-468 *)
+(* bf.go:471-473 *)
 Definition guard (d : Z) (cs : list clause) : list clause :=
   map (fun c => c ++ [- d]) cs.
 
-(* bf.go:457-474: the loop of the "or" case; returns (res, lits, vars).
-   A sub that is neither a lit nor an and is a panic (line 472). *)
+(* bf.go:462-479: the loop of the "or" case; returns (res, lits, vars).
+   A sub that is neither a lit nor an and is a panic (line 477). *)
 Definition or_thread (rec : form -> vars -> list clause * vars)
   : list form -> vars -> list clause * list lit * vars :=
   fix go (l : list form) (vs : vars) : list clause * list lit * vars :=
@@ -511,7 +515,7 @@ Fixpoint cnf_ok (f : form) : bool :=
   | _ => false
   end.
 
-(* bf.go:410-413, 434-438 *)
+(* bf.go:413-416, 439-443 *)
 Record bfcnf := BfCnf { c_vars : vars; c_clauses : list clause }.
 
 Definition as_cnf (f : form) : bfcnf :=
@@ -526,7 +530,7 @@ Definition env_of (c : bfcnf) : model -> (var -> bool) -> var -> bool :=
   env_tbl (v_all (c_vars c)).
 
 (* ------------------------------------------------------------------ *)
-(* bf.go:24-26, 419-433  Solve / cnf.solve.
+(* bf.go:24-26, 422-436  Solve / cnf.solve.
    solver.ParseSlice derives the number of variables from the clauses; it is
    len(vars.all) because every variable of the table occurs in a clause
    (Proofs/Bf.v, [as_cnf_used]).  The Go result is a map name -> bool filled
@@ -582,7 +586,7 @@ Definition dimacs_export (f : form) : dimacs :=
 (* Side conditions on the public-API formulas used by the theorems.     *)
 
 (* The definitions "dummy = Or(members)" that uniqueRec generates
-   (bf.go:368-373), in the order of the recursion. *)
+   (bf.go:371-376), in the order of the recursion. *)
 Fixpoint unique_defs (fuel : nat) (vars : list var) : list (var * list var) :=
   let n := List.length vars in
   if (n <=? 4)%nat then [] else
@@ -610,8 +614,6 @@ Fixpoint sdefs (f : sform) : list (var * list var) :=
   | _ => []
   end.
 
-Definition mem_var (v : var) (l : list var) : bool := existsb (var_eqb v) l.
-
 Fixpoint vars_eqb (a b : list var) : bool :=
   match a, b with
   | [], [] => true
@@ -620,13 +622,10 @@ Fixpoint vars_eqb (a b : list var) : bool :=
   end.
 
 (* The dummies of a group are named from the quoted names of its variables
-   joined with "-" (bf.go:347-351).  Two groups with the same list of
-   variables share their dummies, with identical definitions: harmless.
-   [functional_defs]: two definitions of the same dummy have the same members.
-   It can only fail when a group of user variables and a nested group of
-   dummies (uniqueRec(lines...), for 21 names and more) have the same names,
-   i.e. when the user names variables "line-<i>-..." / "col-<i>-...":
-   Proofs/Bf.v, [clash_free_ok]. *)
+   (bf.go:347-354).  Two groups with the same list of variables share their
+   dummies, with identical definitions: harmless.  [functional_defs]: two
+   definitions of the same dummy have the same members.  It always holds
+   (Proofs/Bf.v, [clash_free_all]). *)
 Fixpoint functional_defs (defs : list (var * list var)) : bool :=
   match defs with
   | [] => true
@@ -637,22 +636,6 @@ Fixpoint functional_defs (defs : list (var * list var)) : bool :=
   end.
 
 Definition clash_free (f : sform) : bool := functional_defs (sdefs f).
-
-(* no name of a group of more than 4 names looks like a line/col dummy *)
-Definition reserved_name (s : string) : bool := prefix "line-" s || prefix "col-" s.
-
-Fixpoint no_reserved (f : sform) : bool :=
-  match f with
-  | SNot g => no_reserved g
-  | SAnd l => forallb no_reserved l
-  | SOr l => forallb no_reserved l
-  | SImplies a b => no_reserved a && no_reserved b
-  | SEq a b => no_reserved a && no_reserved b
-  | SXor a b => no_reserved a && no_reserved b
-  | SUnique names =>
-    (List.length names <=? 4)%nat || forallb (fun n => negb (reserved_name n)) names
-  | _ => true
-  end.
 
 (* Exactly-one groups of more than 4 names occur only positively
    ([pol] = true: the current position is positive).  Both sides of Eq and
